@@ -10,6 +10,9 @@
 (***************************************************************************)
 EXTENDS Integers, Sequences, FiniteSets, TLC, Json
 
+CONSTANTS Design   \* "repaired" | "legacy_nobase" (without a base the built-in default guest policy counts as the
+                   \* caller's value: negative control, the tree before 2f52a98)
+
 VARIABLES row, out
 vars == <<row, out>>
 
@@ -18,11 +21,16 @@ Tri == {"unset", "same", "diff"}
 \* bit the endorsed policy has (a bitwise subset): both are different values the caller configured
 PolicyVals == Tri \cup {"stricter"}
 Differs(v) == v \in {"diff", "stricter"}
-SevRows == [tech : {"sev"}, bpolicy : PolicyVals, bmeas : Tri, bsvn : {"unset", "le", "gt"},
-            bid : BOOLEAN, bauth : BOOLEAN,
+\* nobase: the caller gives no base policy at all (then nothing of it is set); epol: the endorsement's guest
+\* policy is the value the tool uses as a default when an endorsement carries none, or another value
+SevRows == {r \in [tech : {"sev"}, bpolicy : PolicyVals, bmeas : Tri, bsvn : {"unset", "le", "gt"},
+            bid : BOOLEAN, bauth : BOOLEAN, nobase : BOOLEAN, epol : {"default", "other"},
             \* "same_id_author": one certificate is both the ID key and the author key of the endorsement
             bundle : {"none", "id", "id_author", "same_id_author", "three", "wrongtype", "wrongauthor", "garbage"},
-            count : {"listed", "unlisted", "zero"}, ow : BOOLEAN, unspec : BOOLEAN]
+            count : {"listed", "unlisted", "zero"}, ow : BOOLEAN, unspec : BOOLEAN] :
+              /\ (r.nobase => r.bpolicy = "unset" /\ r.bmeas = "unset" /\ r.bsvn = "unset" /\ ~r.bid /\ ~r.bauth)
+              \* (the second endorsed policy only with the base shapes that concern the guest policy)
+              /\ (r.epol = "other" => r.bmeas = "unset" /\ r.bsvn = "unset" /\ ~r.bid /\ ~r.bauth /\ r.bundle = "none")}
 \* "pin_listed" / "pin_other": the base pins one MRTD (mr_td) -- an endorsed one / another -- and has no
 \* allow-list: the pin is a field the derivation does not own and survives it
 TdxRows == [tech : {"tdx"}, base : {"nil", "nobody", "body_nolist", "list_same", "list_diff", "pin_listed", "pin_other"},
@@ -32,9 +40,10 @@ Err(why) == [err |-> why]
 
 \* value of a guarded base field after derivation: "base" = untouched, "endo" = the endorsement's
 Sev(r) ==
-  LET conflict ==
+  LET legacyDefault == Design = "legacy_nobase" /\ r.nobase /\ r.epol = "other"
+      conflict ==
         IF r.ow THEN "none"
-        ELSE IF Differs(r.bpolicy) THEN "policy"
+        ELSE IF Differs(r.bpolicy) \/ legacyDefault THEN "policy"
         ELSE IF r.count # "zero" /\ r.bmeas # "unset" /\ (r.count = "unlisted" \/ r.bmeas = "diff") THEN "measurement"
         ELSE IF r.bsvn = "gt" THEN "svn"
         ELSE "none"
@@ -43,7 +52,7 @@ Sev(r) ==
      ELSE IF r.count = "unlisted" THEN Err("no-measurement")
      ELSE IF r.bundle \in {"three", "wrongtype", "wrongauthor", "garbage"} THEN Err("bundle:" \o r.bundle)
      ELSE [err |-> "",
-           policy |-> IF ~r.ow \/ r.bpolicy = "unset" THEN "endo" ELSE "base",
+           policy |-> IF legacyDefault THEN "default" ELSE IF ~r.ow \/ r.bpolicy = "unset" THEN "endo" ELSE "base",
            meas |-> IF r.count = "listed" THEN "endo" ELSE "base",
            svn |-> "base",
            idAdded |-> r.bundle \in {"id", "id_author", "same_id_author"},
@@ -75,5 +84,10 @@ C17_NoWeakeningTdx ==
 C17_FromEndorsement ==
   out.err = "" /\ row.tech = "sev" => out.policy \in {"base", "endo"} /\ out.meas \in {"base", "endo"}
                                      /\ (out.meas = "endo" => row.count = "listed")
+\* a caller that configures nothing gets the endorsement's values
+C17_NoBaseMeansEndorsement ==
+  row.tech = "sev" /\ row.nobase /\ out.err # "pending" =>
+    /\ out.err \notin {"conflict:policy", "conflict:measurement", "conflict:svn"}     \* nothing of the caller's to conflict with
+    /\ (out.err = "" => out.policy = "endo")
 Emit == out.err # "pending" => PrintT(<<"VCASE", ToJson([row |-> row, out |-> out])>>)
 =============================================================================
